@@ -28,8 +28,9 @@ fn cols_of(h: &SparseMatrix) -> Vec<Vec<usize>> {
 
 fn parsed(text: &str) -> Result<Value, String> {
     guarded(|| match SparseMatrix::from_alist(text) {
-        Ok(h) => json!({"pv": "ok", "pnr": h.num_rows(), "pnc": h.num_cols(), "pcols": cols_of(&h)}),
-        Err(_) => json!({"pv": "err", "pnr": 0, "pnc": 0, "pcols": []}),
+        Ok(h) => json!({"pv": "ok", "pnr": h.num_rows(), "pnc": h.num_cols(), "pcols": cols_of(&h),
+            "prows": (0..h.num_rows()).map(|r| h.iter_row(r).copied().collect::<Vec<usize>>()).collect::<Vec<_>>()}),
+        Err(_) => json!({"pv": "err", "pnr": 0, "pnc": 0, "pcols": [], "prows": []}),
     })
 }
 
@@ -155,7 +156,7 @@ fn random_ones(rng: &mut Rng, nr: usize, nc: usize, dens: u64) -> Vec<(usize, us
 fn mutate(rng: &mut Rng, text: &str) -> String {
     let mut lines: Vec<String> = text.split('\n').map(|s| s.to_string()).collect();
     let n = lines.len();
-    match rng.below(16) {
+    match rng.below(17) {
         0 => { lines.remove(rng.below(n)); }
         1 => { let k = rng.below(n); let l = lines[k].clone(); lines.insert(k, l); }
         2 => { let a = rng.below(n); let b = rng.below(n); lines.swap(a, b); }
@@ -188,6 +189,12 @@ fn mutate(rng: &mut Rng, text: &str) -> String {
             let k = rng.below(n);
             let sp = ["00", "000", "0"][rng.below(3)];
             lines[k] = lines[k].split(' ').map(|t| if t == "0" { sp.to_string() } else if rng.coin(1, 3) && !t.is_empty() && t.bytes().all(|b| b.is_ascii_digit()) { format!("0{t}") } else { t.to_string() }).collect::<Vec<_>>().join(" ");
+        }
+        15 => {
+            // a column line that lists an index twice, out of order ("4 2 4"): still the SET {2, 4}
+            let k = if n > 4 { 4 + rng.below(n - 4) } else { 0 };
+            let toks: Vec<String> = lines[k].split(' ').filter(|t| !t.is_empty()).map(|t| t.to_string()).collect();
+            if toks.len() >= 2 { let mut t2 = toks.clone(); t2.push(toks[0].clone()); t2.swap(0, 1); lines[k] = t2.join(" "); }
         }
         14 => {
             // one token of a line after the first (a weight or an index) replaced by a huge number
